@@ -75,13 +75,13 @@ def run_sequence(R, B, fields, W):
             R.exc(v)
             R.violation(f'load-raises-{key}', f'loading back a stored {f.kind} raised {v!r}', dict(W, field=f.desc()))
             return
-        if not R.check(f.eq(v), f'value-{key}', f'{f.kind} loaded back as {v!r:.120} (type {type(v).__name__})', dict(W, field=f.desc())):
+        if not R.check(f.eq(v), f'value-{key}', f'{f.kind} loaded back as {mon.srepr(v)} (type {type(v).__name__})', dict(W, field=f.desc())):
             return
         if stp == 'exc':
             R.exc(pv)
             R.violation(f'preload-raises-{key}', f'preload of {f.kind} raised {pv!r} where load succeeded', dict(W, field=f.desc()))
         elif stp == 'ok':
-            R.check(f.eq(pv), f'preload-differs-{key}', f'preload of {f.kind} returned {pv!r:.100}, load returned {v!r:.100}', dict(W, field=f.desc()))
+            R.check(f.eq(pv), f'preload-differs-{key}', f'preload of {f.kind} returned {mon.srepr(pv)}, load returned {mon.srepr(v)}', dict(W, field=f.desc()))
         rem_bits -= fb_len
         rem_refs -= fr
         if not R.check(s.remaining_bits == rem_bits and s.remaining_refs == rem_refs, f'position-{key}',
